@@ -76,8 +76,16 @@ __CPROVER_ensures(i == v->g_p ==> RET == v->tracked);
 /* erase(it): only an element that was just read may be erased (its value is then known) */
 void PVec_erase(PVec* v, size_t i)
 __CPROVER_requires(g_locked && i < v->n && i == g_last_i)
-__CPROVER_assigns(v->n, g_erased, g_erased_p)
-__CPROVER_ensures(v->n == OLD(v->n) - 1 && g_erased == OLD(g_erased) + 1 && g_erased_p == g_last_p);
+__CPROVER_assigns(v->n, g_erased, g_erased_p, g_invalid_registered)
+__CPROVER_ensures(v->n == OLD(v->n) - 1 && g_erased == OLD(g_erased) + 1 && g_erased_p == g_last_p)
+__CPROVER_ensures(g_invalid_registered == OLD(g_invalid_registered) - 1);    /* the EVENT: one exited context leaves the registry - the ghost count follows the event, not the way the field is updated */
+/* in this unit the counter operations touch the field only (the ghost moves with the erase above), and a plain store is defined too,
+   so that 'decrement' rewritten as 'reset' (seed C20-G5) is decided by the clause below instead of ending in 'undefined function' */
+static inline void cnt_field_sub(TCM* s, uint64_t v, int mo) { (void)mo; s->_invalid_thread_context_count -= v; }
+static inline void cnt_field_store(TCM* s, uint64_t v, int mo) { (void)mo; s->_invalid_thread_context_count = v; }
+#undef ATOMIC_FETCH_SUB__invalid_thread_context_count
+#define ATOMIC_FETCH_SUB__invalid_thread_context_count(s, v, mo) cnt_field_sub(s, v, mo)
+#define ATOMIC_STORE__invalid_thread_context_count(s, v, mo) cnt_field_store(s, v, mo)
 '''
 
 remove_ctx = dict(
